@@ -39,6 +39,11 @@ CHECKS = {
   text="Histories of RandomSecret calls (sequential and 2..64 goroutines under -race) run against a recording random source; an offline checker shows each secret is upper-case unpadded base32 of exactly 20/32/64 bytes that are contiguous, unmodified stream segments handed out during that call, that no stream position feeds two secrets, that DecodeSecret inverts it, and that all 253 unsupported enum values give (\"\", error).",
   note="Trusted: crypto/rand.Reader is the OS CSPRNG by default (what is monitored is that the library takes its bytes from it, unmodified, once); Go race detector; reference base32.",
   design="7/C08"),
+ "C09": dict(
+  technique="debugger-based execution monitor (gdb 13 + Python over a no-inline build): (a) operand watch on every early-exit comparison primitive, (b) single-step instruction-count differential across the position of the first wrong character",
+  text="Rejecting validations of right-length wrong codes (first wrong character at every position, two families) are executed through ValidateHOTP/TOTP/OCRA, through the wasm binding's handlers compiled natively via an overlay, and through the REST validate endpoints of the real server, under gdb: no early-exit primitive (memequal, cmpstring, strequal, bytealg.Compare/Index, HasPrefix, EqualFold…) may be entered with a code of the acceptance window as an operand, and the number of instructions executed in the module, crypto/subtle, bytes/strings/bytealg/strconv and the runtime comparison primitives must be identical for every position (forward and reverse pass after warm-ups, scheduler-locked; non-reproducible counts are inconclusive).",
+  note="Reach limit: the timing of the code AS COMPILED TO WebAssembly cannot be observed by any tool here (no wasm instruction counter; Node timing would be a wall-clock oracle); the identical Go source of the binding is monitored natively instead. Micro-architectural timing (caches, branch prediction) is outside what instruction counts see. Trusted: gdb register/memory reads, Go ABIInternal register assignment on amd64, symbol table from go tool nm. Tool failures are inconclusive, never violations.",
+  design="7/C09"),
  "C10": dict(
   technique="crash/hang monitor: hostile-argument workload over the whole exported API in child processes (plain, -race/checkptr, -asan), recover() per call, call log written before each call, derivation cut-off hook",
   text="Every exported function and method (listed at run time from /repo with go/parser; Must* helpers excluded by the property) is called with hostile values from the property's domain sketch; a recovered panic, a process-fatal error attributed through the pre-call log, or unbounded work (hook cut-off / allocation-corroborated hang) is a violation. A wall-clock watchdog firing alone is inconclusive.",
